@@ -364,9 +364,11 @@ def run_forward(xml, qpos, qvel, nworld=2):
   return m, d, mm, dd
 
 
-def same_constraints(m, d, dd, w=0):
+def same_constraints(m, d, dd, w=0, frames=False):
   """True when MuJoCo and MJWarp (world w) built the same constraint set: same row count and the same contacts
-  (geoms, dimension, position, distance).  Collision-detection differences are not a matter of C06/C24/C39."""
+  (geoms, dimension, position, distance, contact normal; with frames=True also the tangent axes - the
+  pyramidal cone is not invariant under a rotation of the tangent axes, so a different axis choice is a
+  different problem).  Collision-detection differences are not a matter of C06/C24/C39."""
   if int(dd.nefc.numpy()[w]) != d.nefc or int(dd.ne.numpy()[w]) != d.ne or int(dd.nf.numpy()[w]) != d.nf:
     return False
   nacon = int(dd.nacon.numpy()[0])
@@ -375,6 +377,7 @@ def same_constraints(m, d, dd, w=0):
   if len(idx) != d.ncon:
     return False
   geom, pos, dist, dim = dd.contact.geom.numpy(), dd.contact.pos.numpy(), dd.contact.dist.numpy(), dd.contact.dim.numpy()
+  frame = dd.contact.frame.numpy()
   used = set()
   for c in idx:
     hit = None
@@ -382,8 +385,10 @@ def same_constraints(m, d, dd, w=0):
       g = d.contact[i]
       if i not in used and {int(g.geom1), int(g.geom2)} == {int(geom[c][0]), int(geom[c][1])} and int(g.dim) == int(dim[c]) \
          and np.linalg.norm(g.pos - pos[c]) < 1e-4 and abs(g.dist - dist[c]) < 1e-5:
-        hit = i
-        break
+        df = np.abs(g.frame.reshape(3, 3) - frame[c])
+        if int(g.geom1) == int(geom[c][0]) and np.max(df[0]) < 1e-4 and (not frames or np.max(df) < 1e-4):
+          hit = i
+          break
     if hit is None:
       return False
     used.add(hit)
